@@ -343,7 +343,7 @@ pub fn run_c28(ctx: &mut Ctx) {
     ctx.rule = "values of each persisted record type (StoredPointHeader, StoredManifest, StoredObject, StoredStatus, \
         RepositoryState) through the real write/read with random trailing bytes; boundary integers, times at \
         chrono's limits and with sub-second parts, URIs with mixed-case schemes / long segments / trailing slash, \
-        byte strings of length 0,1,255,256,257,4095/65535,4096/65536, maps of 0..120/1500 entries; every optional \
+        byte strings of length 0,1,255,256,257,4095,4096 (thorough: also 65535,65536), maps of 0..120 (thorough: 1500) entries; every optional \
         field cycled None/Some; plus whole stored-point files (open/update/load_quietly/iterate), status.bin \
         (Run::done/Store::status), RRDP state in an archive (publish/update/load_state), and the URI validators. \
         non-trivial = (record kind, pattern of absent/empty/present fields, trailing length class)".into();
@@ -352,7 +352,7 @@ pub fn run_c28(ctx: &mut Ctx) {
         Some(inputs) => inputs,
         None => {
             let mut res = ctx.corpus("C28");
-            let n = ctx.budget(1000, 100_000);
+            let n = ctx.budget(1000, 20_000);
             for kind in KINDS {
                 for i in 0..n {
                     let mut rng = ctx.rng.fork();
@@ -361,7 +361,7 @@ pub fn run_c28(ctx: &mut Ctx) {
                     res.push(json!({"rec": kind, "fields": f.show(), "trail": hex(&trail)}));
                 }
             }
-            for i in 0..ctx.budget(150, 10_000) {
+            for i in 0..ctx.budget(150, 3_000) {
                 let mut rng = ctx.rng.fork();
                 let mut h = gen::record(&mut rng, "header", i, quick);
                 h.set("update_status", format!("A{}", gen::time_text(&mut rng, true)));
@@ -371,11 +371,11 @@ pub fn run_c28(ctx: &mut Ctx) {
                 let now = gen::now_text(&mut rng);
                 res.push(json!({"file": "point", "header": h.show(), "manifest": m.show(), "objects": objs, "now": now}));
             }
-            for _ in 0..ctx.budget(40, 2_000) {
+            for _ in 0..ctx.budget(40, 1_000) {
                 let mut rng = ctx.rng.fork();
                 res.push(json!({"file": "status", "now": gen::now_text(&mut rng)}));
             }
-            for i in 0..ctx.budget(60, 4_000) {
+            for i in 0..ctx.budget(60, 1_500) {
                 let mut rng = ctx.rng.fork();
                 let n = 1 + i % 3;
                 let states: Vec<String> = (0..n).map(|k| gen::record(&mut rng, "state", i * 7 + k, true).show()).collect();
